@@ -65,10 +65,10 @@ type Finding struct {
 
 // Env is passed to Run.
 type Env struct {
-	Tier   string
-	Seed   int64
-	Race   bool
-	Replay bool
+	Tier    string
+	Seed    int64
+	Race    bool
+	Replay  bool
 	WorkDir string
 }
 
@@ -95,6 +95,8 @@ type Prop struct {
 	// Finish may adjust / add information after aggregation (e.g. require that
 	// specific counters are non-zero). It returns extra "observed nothing" reasons.
 	Finish func(a *Agg) []string
+	// Procs: GOMAXPROCS of each worker (0 = 4).
+	Procs int
 	// MinNT: minimum number of distinct non-trivial observations for a pass.
 	MinNT int
 }
@@ -327,7 +329,11 @@ func Run(p *Prop, tier string, seed int64, root, self, raceSelf string) int {
 				cmd := exec.Command(bin, "worker", p.ID, tier, strconv.FormatInt(seed, 10), strconv.Itoa(s), strconv.Itoa(nw), strconv.Itoa(after), out)
 				cmd.Stdout = ef
 				cmd.Stderr = ef
-				cmd.Env = append(os.Environ(), "GOTRACEBACK=all")
+				procs := p.Procs
+				if procs == 0 {
+					procs = 4
+				}
+				cmd.Env = append(os.Environ(), "GOTRACEBACK=all", "GOMAXPROCS="+strconv.Itoa(procs))
 				if p.Race {
 					cmd.Env = append(cmd.Env, "GORACE=halt_on_error=0 history_size=3 log_path="+filepath.Join(work, fmt.Sprintf("race.w%d.%d", s, attempt)))
 				}
